@@ -50,6 +50,14 @@ RULES = {
   ("KF-C06-3", "generic-candidate-aborts-resolution-on-multi-value-call", r'^generic-candidate-aborts-resolution-on-multi-value-call$',
    "a family whose generic candidate [T any](T) precedes the applicable one, called with a multi-value call as only argument: inference panics with 'unexpected *types.Tuple' and the whole call is rejected instead of the next candidate being tried", "typeparams.go inferFunc / typesinfer.go: tuple operand"),
  ],
+ "C11": [
+  ("KF-C11-1", "several-hoisted-assertions-in-a-statement-head", r'^lowering-fails/member/(if-cond|elseif-cond|for-cond|switch-tag|if-init)/temporaries=',
+   "member access on `any` in an if / for / switch head needs its hoisted assertion as the head's init statement; a second one (two accesses, a chain a.b.c, or an access inside an if-init statement) fails with 'too many init statements'", "stmt.go ifStmt/forStmt/switchStmt: one init statement; codebuild.go:1311 emitMapStringAnyAssert emits into the head"),
+  ("KF-C11-2", "any-member-in-loop-condition-evaluated-once", r'^member-of-any-in-loop-condition-evaluated-once/',
+   "for e.key == nil { .. } is lowered to for T, _ := e.(map[string]any); T[\"key\"] == nil; { .. }: the assertion runs once before the loop, the condition no longer re-reads e on every iteration", "stmt.go forStmt.Then: hoisted statement becomes the loop's init statement"),
+  ("KF-C11-3", "any-member-in-case-list-hoisted-after-use", r'^lowered-code-ill-typed/member/case-expr/',
+   "case e.key: in an expression switch emits the hoisted assertion into the clause body, after the case expression that uses the temporary: the output does not type-check (undefined / declared and not used)", "stmt.go:500 caseStmt: expressions of the case list are taken before the hoisted statements are placed"),
+ ],
  "C12": [
   ("KF-C12-1", "statement-comments-printed-at-column-zero", r'^comments/not-a-gofmt-fixed-point/comment-indentation$',
    "a comment group attached to a statement with SetComments is printed at column 0 instead of at the indentation of its statement: the written text is not a fixed point of gofmt (the repository's own expected strings pin this layout)", "internal/go/printer/nodes.go:1321 statement-comment hook prints the position-less comment text as is"),
